@@ -34,6 +34,7 @@ extern int simfs_stdin_closed(void);
 extern unsigned simfs_open_streams(void);
 extern uint64_t g_c10_nodes_checked, g_c10_nodes_skipped;
 extern int g_c10_on;
+extern void tsan_shared_reset(void) __attribute__((weak));
 extern uint64_t *g_preempt_trace; extern size_t g_preempt_trace_n;
 
 sim_world W;
@@ -83,10 +84,30 @@ void sim_fatal(const char *verdict, const char *fmt, ...)
     _exit(3);
 }
 
+/* The watchdog separates "no progress" (a hang: TIMEOUT) from "slow but progressing" (heavily preempted
+   or large runs: allowed to go on, up to a hard cap after which the run is given up as SLOW, which is
+   never a violation). */
+static uint64_t g_last_progress;
+static int g_ticks;
+static uint64_t progress_signature(void)
+{
+    return hooks_event_count() + g_accesses + g_steps + g_probe[PR_ALLOCS] + g_probe[PR_FS_READS] + g_probe[PR_FS_WRITES] + g_probe[PR_CLOCK_READS];
+}
+
 static void sig_handler(int sig)
 {
     char b[256];
-    int n = snprintf(b, sizeof b, "\nfatal SIGNAL %d %s\ndone %s FATAL\n", sig, sig == SIGALRM ? "wall-clock watchdog" : "signal in kalign code", g_plan_id);
+    if (sig == SIGALRM) {
+        uint64_t p = progress_signature();
+        if (p != g_last_progress && ++g_ticks < 12) { g_last_progress = p; alarm((unsigned)g_wall_limit); return; }
+        if (p != g_last_progress) {
+            int n0 = snprintf(b, sizeof b, "\nfatal SLOW still progressing after %d s, given up\ndone %s FATAL\n", g_ticks * g_wall_limit, g_plan_id);
+            if (g_out) fflush(g_out);
+            if (write(g_outfd, b, (size_t)n0) < 0) { }
+            _exit(6);
+        }
+    }
+    int n = snprintf(b, sizeof b, "\nfatal SIGNAL %d %s\ndone %s FATAL\n", sig, sig == SIGALRM ? "wall-clock watchdog: no progress" : "signal in kalign code", g_plan_id);
     if (g_out) { death_dump(); fflush(g_out); }
     if (write(g_outfd, b, (size_t)n) < 0) { }
     if (sig != SIGALRM) { void *bt[48]; int k = backtrace(bt, 48); backtrace_symbols_fd(bt, k, 2); }
@@ -183,6 +204,7 @@ static void set_world(const char *k, const char *v)
     else if (!strcmp(k, "tw_descendants")) W.tw_descendants = (int)x;
     else if (!strcmp(k, "p_preempt")) W.p_preempt = (uint32_t)ux;
     else if (!strcmp(k, "p_burst")) W.p_burst = (uint32_t)x;
+    else if (!strcmp(k, "p_shared")) W.p_shared = (uint32_t)x;
     else if (!strcmp(k, "burst_len")) W.burst_len = (uint32_t)x;
     else if (!strcmp(k, "max_steps")) W.max_steps = ux;
     else if (!strcmp(k, "junk_seed")) W.junk_seed = ux;
@@ -365,7 +387,9 @@ static void exec_op(int idx, OpLine *o)
 static void run_plan(void)
 {
     simomp_reset(); simclock_reset(); simalloc_reset(); hooks_reset();
+    if (tsan_shared_reset) tsan_shared_reset();
     g_nviol = 0; g_failed = 0;
+    g_last_progress = 0; g_ticks = 0;
     alarm((unsigned)g_wall_limit);
     for (size_t i = 0; i < g_nops; i++) exec_op((int)i, &g_ops[i]);
     alarm(0);
